@@ -87,7 +87,9 @@ CHECKS = {
              'identity, that the index tables have length len+1 and the stated content, that every value stored in a '
              'fixed-width array.array fits the typecode chosen by _make_array (the only machine-width arithmetic in '
              'the library), the memo rebinding protocol, pars() answering each of its three modes from its own memo slot '
-             'and the byte-coordinate accessors being c2b of loc. This is the fragment behind "character- and byte-based '
+             'and the byte-coordinate accessors being c2b of loc; _loc_arguments (function definitions, any number of type '
+             'parameters) searches its delimiters in exactly the windows that make the result the text between them. '
+             'This is the fragment behind "character- and byte-based '
              'coordinates agree". Everything else of C06 is bounded: .loc vs CPython extents, token boundaries, '
              'operators, pars(), nesting, siblings, find_* vs brute force (thorough: standard library). Known findings '
              'F-C06-1/2.',
